@@ -203,6 +203,51 @@ def build_harness(name, variant="asan", extra_sources=(), extra_cflags=(), extra
         return exe
 
 
+# command-line tools of the working tree, compiled with the same instrumented flags and linked
+# statically against the instrumented library (C20)
+TOOLS = {
+    "hwloc-calc": ["utils/hwloc/hwloc-calc.c"],
+    "hwloc-distrib": ["utils/hwloc/hwloc-distrib.c"],
+    "hwloc-diff": ["utils/hwloc/hwloc-diff.c"],
+    "hwloc-patch": ["utils/hwloc/hwloc-patch.c"],
+    "hwloc-info": ["utils/hwloc/hwloc-info.c"],
+    "lstopo-no-graphics": ["utils/lstopo/lstopo.c", "utils/lstopo/lstopo-draw.c", "utils/lstopo/lstopo-tikz.c",
+                           "utils/lstopo/lstopo-fig.c", "utils/lstopo/lstopo-svg.c", "utils/lstopo/lstopo-ascii.c",
+                           "utils/lstopo/lstopo-text.c", "utils/lstopo/lstopo-xml.c", "utils/lstopo/lstopo-shmem.c",
+                           "utils/hwloc/common-ps.c"],
+}
+
+
+def build_tools(variant="asan", names=None):
+    """-> {name: path} under build/<variant>/tools"""
+    v = VARIANTS[variant]
+    lib = build_lib(variant)
+    out = os.path.join(BUILD, variant, "tools")
+    objd = os.path.join(BUILD, variant, "tobj")
+    os.makedirs(out, exist_ok=True)
+    os.makedirs(objd, exist_ok=True)
+    res = {}
+    with Lock("tools-" + variant):
+        # the tools are not part of the library: no HWLOC_INSIDE_LIBHWLOC
+        flags = v["cflags"] + [d for d in COMMON_DEFS if "INSIDE_LIBHWLOC" not in d] + ["-I" + os.path.join(REPO, "utils", "hwloc"), "-I" + os.path.join(REPO, "utils", "lstopo"), "-w"]
+        for name in (names or sorted(TOOLS)):
+            objs = []
+            changed = False
+            for s in TOOLS[name]:
+                obj = os.path.join(objd, name + "__" + os.path.basename(s)[:-2] + ".o")
+                changed |= _compile(v["cc"], flags, os.path.join(REPO, s), obj)
+                objs.append(obj)
+            exe = os.path.join(out, name)
+            if changed or not os.path.exists(exe) or os.path.getmtime(lib) > os.path.getmtime(exe):
+                cmd = [v["cc"]] + v["ldflags"] + objs + [lib] + LIBS + ["-lncursesw", "-o", exe]
+                r = subprocess.run(cmd, stdout=subprocess.PIPE, stderr=subprocess.STDOUT, text=True)
+                if r.returncode != 0:
+                    sys.stderr.write(r.stdout)
+                    raise SystemExit("tool link failed: " + " ".join(cmd))
+            res[name] = exe
+    return res
+
+
 if __name__ == "__main__":
     import argparse
     ap = argparse.ArgumentParser()
